@@ -24,7 +24,12 @@ def scenario(rng, i):
     if dirs and rng.random() < 0.4:
         steps.append({"op": "create", "root": rng.choice(dirs), "fmts": gen.gen_fmts(rng)})
     altered_mode = i % 2 == 1
+    # every fifth scenario runs under a wall clock that jumps around between the runs (generations are ordered by their
+    # number, never by their dates)
+    clocks = i % 5 == 3
     for k in range(rng.choice([2, 3, 4, 5, 6])):
+        if clocks:
+            steps.append({"op": "clock", "t": "20%02d-0%d-1%d 0%d:00:00" % (rng.randrange(10, 30), rng.randrange(1, 10), rng.randrange(0, 9), rng.randrange(0, 10))})
         st = {"op": "create", "fmts": gen.gen_fmts(rng, kmax=6)}
         if rng.random() < 0.3:
             st["sf"] = [target]
